@@ -1580,3 +1580,46 @@ UNITS["validate"] = {
          }},
     ],
 }
+
+
+# ------------------------------------------------------------------------------------------------
+# TilesetsById::validate (C05 / C15): every tileset that survives loading has its pixels embedded and validated
+# ------------------------------------------------------------------------------------------------
+UNITS["validate_tilesets"] = {
+    "prelude_sections": ["errors", "rgba_only", "intmap", "hashmap_shim"],
+    "items": [it for it in UNITS["pixels"]["items"]] + [
+        {"kind": "struct", "file": "external_file", "name": "ExternalFileId", "keep": None, "attrs": "#[derive(Clone, Copy, PartialEq, Eq)]\n"},
+        {"kind": "struct", "file": "tileset", "name": "ExternalTilesetReference", "keep": None},
+        {"kind": "struct", "file": "tileset", "name": "TileSize", "keep": None, "attrs": "#[derive(Clone, Copy)]\n"},
+        {"kind": "struct", "file": "tileset", "name": "TilesetId", "keep": None, "attrs": "#[derive(Clone, Copy, PartialEq, Eq)]\n"},
+        {"kind": "struct", "file": "tileset", "name": "Tileset", "keep": None},
+        {"kind": "struct", "file": "tileset", "name": "TilesetsById", "keep": None, "attrs": "#[verifier::reject_recursive_types(P)]\n"},
+        {"kind": "verbatim", "text": """
+pub open spec fn pixels_validated(src: RawPixels, dst: Pixels) -> bool {
+    match src {
+        RawPixels::Rgba(data) => dst is Rgba && dst->Rgba_0@ == data@,
+        RawPixels::Grayscale(data) => dst is Grayscale && dst->Grayscale_0@ == data@,
+        RawPixels::Indexed(data) => dst is Indexed && dst->Indexed_data@ == data@
+            && forall|i: int| 0 <= i < data@.len() ==> (*dst->Indexed_palette).entries@.contains_key(#[trigger] data@[i] as u32),
+    }
+}
+/// TilesetsById::validate's verdict on one tileset: pixels embedded and validated, everything else unchanged
+pub open spec fn tileset_validated(src: Tileset<RawPixels>, dst: Tileset<Pixels>) -> bool {
+    &&& src.pixels is Some && dst.pixels is Some && pixels_validated(src.pixels->0, dst.pixels->0)
+    &&& dst.id == src.id && dst.empty_tile_is_id_zero == src.empty_tile_is_id_zero && dst.tile_count == src.tile_count
+    &&& dst.tile_size == src.tile_size && dst.base_index == src.base_index && dst.name == src.name && dst.external_file == src.external_file
+}
+"""},
+        {"kind": "fn", "file": "tileset", "name": "validate", "key": "TilesetsById::validate", "impl_of": "TilesetsById", "impl_filter": r"impl\s+TilesetsById<RawPixels>", "impl_header": "TilesetsById<RawPixels>", "ret": "r",
+         "rules": ["R1", "R6", "R11"],
+         "body_rewrites": [("for (id, tileset) in self.0.into_iter() {", "for (id, tileset) in it: self.0.into_iter() {")],
+         "ensures": ("        // C15: a tileset without embedded pixels is refused; C05: the surviving tilesets keep their ids and fields\n"
+                     "        r is Ok ==> (forall|k: TilesetId| r->Ok_0.0@.contains_key(k) <==> self.0@.contains_key(k))\n"
+                     "            && (forall|k: TilesetId| self.0@.contains_key(k) ==> tileset_validated(self.0@[k], #[trigger] r->Ok_0.0@[k])),"),
+         "loops": {1: ("            invariant\n"
+                       "                enumerates(it.snapshot@.remaining(), self.0@),\n"
+                       "                forall|k: TilesetId| #[trigger] result@.contains_key(k) <==> exists|i: int| 0 <= i < it.index@ && (#[trigger] it.snapshot@.remaining()[i]).0 == k,\n"
+                       "                forall|i: int| 0 <= i < it.index@ ==> tileset_validated((#[trigger] it.snapshot@.remaining()[i]).1, result@[it.snapshot@.remaining()[i].0]),")},
+         },
+    ],
+}
